@@ -1,4 +1,5 @@
 SPECIFICATION Spec
 CONSTANT FAM = "S"
 INVARIANT DecoderCorrect
+INVARIANT CtlRefines
 CHECK_DEADLOCK FALSE
